@@ -137,6 +137,34 @@ def check(F, rep, tier):
         for k in ("major", "minor", "patch"):
             if wires.get(k) == {k}: rep.ok("R07.5", "SemVer -> vars.%s from self.%s" % (k, k), nontrivial_key="s" + k)
             else: rep.bad("R07.5", "to-zerv-wire:semver:" + k, "SemVer -> Zerv: vars.%s is taken from %s" % (k, sorted(wires.get(k, []))), sz.where())
+    # ---- R07.5c a number that follows a label stays that label's value, whatever its size ------------------------------------------
+    n_fin = 0
+    for p_, g in sorted(F.fns.items()):
+        if not p_.startswith("crate::version::semver::to_zerv") or g.kind == "closure" or "::tests::" in p_: continue
+        upar = [i for i in range(1, g.nargs + 1) if g.locals[i] == "u64"]
+        if not upar: continue
+        gi = mir.inlined(F, g, depth=2, keep=("finalize_var", "push_extra_core"), ok=lambda F_, c_, cp, h: h is not None and h.kind != "closure" and cp.startswith("crate::version::semver::to_zerv"))
+        for bi, t in gi.calls():
+            if not (mir.callee(t) or "").endswith("::finalize_var") or len(t[2]) < 3: continue
+            n_fin += 1
+            site = "%s bb%d line %s" % (gi.where(), bi, gi.blocks[bi]["line"])
+            val = mir.deep_origins(gi, t[2][2])
+            from_param = any(k == "param" and d.isdigit() and int(d) in upar for k, d in val)
+            sized = []
+            for d, pol, dd in mir.guards_of(gi, bi):
+                ops = []
+                if d[0] == "bin": ops = [d[2], d[3]]
+                elif d[0] == "call": ops = list(d[2][2]) if isinstance(d[2], list) and len(d[2]) > 2 else []
+                elif d[0] == "discr":
+                    # Result of u32::try_from(n) and friends
+                    for o in mir.trace_place(gi, d[1], transparent=()):
+                        if o.kind == "call" and any(x in (mir.callee(gi.blocks[o.data]["t"]) or "") for x in ("try_from", "try_into", "checked_")): ops += list(gi.blocks[o.data]["t"][2])
+                for o_ in ops:
+                    if isinstance(o_, list) and o_ and o_[0] in ("cp", "mv") and any(k == "param" and dd2.isdigit() and int(dd2) in upar for k, dd2 in mir.deep_origins(gi, o_)): sized.append(d[1] if d[0] == "bin" else str(d[1])[:40])
+            if not from_param: rep.bad("R07.5", "label-loses-number:" + p_.rsplit("::", 1)[-1], "a numeric identifier handler finalises the pending label without the number it was given: the label is then printed without its value (or not at all)", site)
+            elif sized: rep.bad("R07.5", "label-binding-depends-on-size:" + p_.rsplit("::", 1)[-1], "whether the number becomes the pending label's value depends on its magnitude (%s): beyond that bound the label loses its number in SemVer output" % sized[:2], site)
+            else: rep.ok("R07.5", "the number following a label is finalised as that label's value (Some(n)), independent of its size", sample=site, nontrivial_key="fin%s%d" % (p_, bi))
+    rep.floor("R07.5", "finalize_var calls in numeric identifier handlers", n_fin, 1)
     # ---- R07.6 render and tag parsing use the same From impls ------------------------------------------------------------------
     rr = F.fn("crate::cli::render::pipeline::run_render")
     vo = [f for f in F.find("as std::convert::From<crate::version::version_object::VersionObject>>::from") + F.find("<impl std::convert::From<crate::version::version_object::VersionObject> for crate::version::zerv::vars::ZervVars>::from")]
